@@ -17,6 +17,8 @@ func main() {
 	switch os.Args[1] {
 	case "ledger":
 		ledgerMain(os.Args[2:])
+	case "spice":
+		spiceMain(os.Args[2:])
 	case "locks":
 		locksMain(os.Args[2:])
 	default:
